@@ -10,6 +10,6 @@ mkdir -p $T && rsync -a --exclude target --exclude .git /repo/ $T/ && (cd $T && 
 cd /verif && VERIF_REPO=$T ./check $P --tier quick > /tmp/try_seed_out_$$.txt 2>&1; rc=$?
 grep -E "^VIOLATION|^UNDECIDED|^OK|^obligation=" /tmp/try_seed_out_$$.txt | cut -c1-260 | head -12
 echo "exit=$rc"
-W=$(cd /verif && VERIF_REPO=$T python3 -c 'from vlib import engine; print(engine.WORK)')
-case "$W" in */scratch_*) rm -rf "$W";; esac
+W=`cd /verif && VERIF_REPO=$T python3 -c "from vlib import engine; print(engine.WORK)"`
+if echo "$W" | grep -q "/scratch_"; then rm -rf "$W"; fi
 rm -rf $T /tmp/try_seed_out_$$.txt
